@@ -93,6 +93,8 @@ func (e *otherEnv) source() *consNode {
 	return c
 }
 
+func runTimeErrHook(out *outcome, pn interface{}, stk string) { runtimeErrorInReceive(out, pn, stk) }
+
 func (e *otherEnv) run(cs *caseT) *outcome {
 	switch cs.Reactor {
 	case "blockchain":
@@ -271,6 +273,9 @@ func (e *otherEnv) runBC(cs *caseT) *outcome {
 	view0 := w.r.VerifC18View()
 	a0 := allocBytes()
 	pn, stk := guarded(func() { w.r.Receive(cs.Ch, p, msg) })
+	if pn != nil {
+		runTimeErrHook(out, pn, stk)
+	}
 	if pn != nil {
 		out.Contained = fmt.Sprintf("%v at %s", short(fmt.Sprint(pn), 160), panicSite(stk))
 	}
@@ -554,6 +559,9 @@ func (e *otherEnv) runTx(cs *caseT) *outcome {
 	sent0 := p.sentTot
 	a0 := allocBytes()
 	pn, stk := guarded(func() { w.r.Receive(cs.Ch, p, msg) })
+	if pn != nil {
+		runTimeErrHook(out, pn, stk)
+	}
 	out.Alloc = allocBytes() - a0
 	if pn != nil {
 		out.Contained = fmt.Sprintf("%v at %s", short(fmt.Sprint(pn), 160), panicSite(stk))
@@ -723,6 +731,9 @@ func (e *otherEnv) runEv(cs *caseT) *outcome {
 	n0 := evPending(w.c)
 	a0 := allocBytes()
 	pn, stk := guarded(func() { w.r.Receive(cs.Ch, p, msg) })
+	if pn != nil {
+		runTimeErrHook(out, pn, stk)
+	}
 	out.Alloc = allocBytes() - a0
 	if pn != nil {
 		out.Contained = fmt.Sprintf("%v at %s", short(fmt.Sprint(pn), 160), panicSite(stk))
@@ -878,6 +889,9 @@ func (e *otherEnv) runPex(cs *caseT) *outcome {
 	sent0 := p.sentTot
 	a0 := allocBytes()
 	pn, stk := guarded(func() { r.Receive(cs.Ch, p, msg) })
+	if pn != nil {
+		runTimeErrHook(out, pn, stk)
+	}
 	out.Alloc = allocBytes() - a0
 	if pn != nil {
 		out.Contained = fmt.Sprintf("%v at %s", short(fmt.Sprint(pn), 160), panicSite(stk))
